@@ -42,6 +42,7 @@ def run_case(case):
                       check_timeout_ms=opts.get("check_timeout_ms", 60000),
                       max_paths=opts.get("max_paths", 200000))
         cx.trig_mode = opts.get("trig_mode", "float")
+        cx.trig_axioms = opts.get("trig_axioms", True)
         cx.validate_left = opts.get("validate", 2)
         pending = []
 
@@ -352,7 +353,8 @@ def main(argv=None):
             obligations=tot("obligations"), discharged=tot("discharged"),
             cases=len(results), paths_aborted_infeasible=tot("aborted"),
             obligations_by_subclaim=by_label,
-            solver_s=round(tot("solver_s"), 2), solver="z3 " + _z3v(),
+            solver_s=round(tot("solver_s"), 2), solver="z3 " + _z3v() + "; cvc5 binary as second solver on z3 unknown",
+            cvc5_queries=sum(r.get("cvc5_queries", 0) for r in results),
             functions_encoded=meta.get("functions", []), bounds=meta.get("bounds", {}).get(a.tier, meta.get("bounds")),
             outside_claim=meta.get("outside", []),
             trusted_base=meta.get("trusted_base", []),
